@@ -15,6 +15,9 @@ TEXT = {
  "C14": "Heap-provenance obligations decided on the symbolic executor's object graph for every explored path (returned slices are not reachable from the DB / file buffers; the DB does not reach caller-owned arrays) plus a semantic double check (caller overwrites, later Put/Compact/Close, compare) as SMT obligations; fs.Mem only.",
  "C16": "Symbolic execution at the real constants for boundary key/value lengths (contents partly symbolic): byte-exact round trips through Put/Get/Has/Items, clean restart and crash recovery; rejection of over-long keys/values without side effects; over-long lookups never match a stored key with the same low 16 length bits.",
  "C05": "Bounded symbolic model checking with threads: Compact runs as one engine thread, a writer as another; the scheduler's choice at every lock acquisition is explored exhaustively within the bound (writer before/between/after any two records compaction processes, between pick and seal), contents and hashes symbolic; afterwards full comparison with the reference, directory check, and process death + real recovery (thorough: crash at any FS call inside the concurrent run).",
+ "C07": "Bounded symbolic model checking with threads: all schedules (context switch at every lock acquisition) of 2-3 threads with symbolic operation kinds/keys/values; linearizability is one disjunctive SMT obligation over the real-time-respecting permutations. Rests on C10's lockset monitor for the soundness of switching only at lock acquisitions.",
+ "C10": "Decided part: no panic (every implicit runtime check on every path is an obligation), no deadlock (engine-level detection on all schedules), lock discipline (Eraser-style lockset monitor over symbolic paths, per heap cell owned by pogreb), Close racing with every other method, every method on a closed DB. Not decided: the runtime race detector's verdict, memory faults on unmapped memory, goroutine leak / background worker.",
+ "C12": "Bounded symbolic model checking with threads: Backup as one thread, a writer as another, schedule symbolic at lock acquisitions and at Backup's lock-free points; the copy is opened by the real recovery and compared (one disjunctive obligation over admissible prefixes); the source must be unaffected.",
  "C08": "Differential symbolic execution of recoveryIterator/segmentIterator (with bufio and io.ReadFull from stdlib SSA) against a reference decoder on segments whose tail bytes are fully symbolic: same accepted records, truncation to the accepted prefix, no error/panic, for all tail contents up to the stated length.",
  "C18": "Differential symbolic execution of the encoders/decoders against a reference written from docs/design.md; all contents symbolic, sizes case-split; MurmurHash3 compared as bit-vector terms for all inputs of each length.",
  "C19": "Every allocation executed during recovery of a segment with a fully symbolic damaged header is an SMT obligation size <= budget, the size being a symbolic expression of the header; unsat covers all 2^48 headers within the tail-length bound.",
